@@ -10,6 +10,7 @@ import InTotoModel.Driver.VerifyProto
 import InTotoModel.Generated.StrRequests
 import InTotoModel.Model.Attest
 import InTotoModel.Model.Wire
+import InTotoModel.Model.KeyId
 /-
   Executable model driver: one operation per input line, one canonical answer per line.
   Unknown or malformed operations answer `bad-op` (never a default).
@@ -99,6 +100,38 @@ def step (line : String) : String :=
       if RulesSpec.Normalized item links then toString (RulesSpec.verdict item links) else "na"
     | none => "bad-op"
   | "verify" :: toks => runVerify toks
+  | ["keyid", t, scheme, algs, mat] =>
+    let ty := if t == "ed25519" then some KeyId.KeyType.ed25519 else if t == "rsa" then some .rsa
+      else if t == "ecdsa" then some .ecdsa else none
+    let algs? : Option (Option (List Str)) :=
+      if algs == "~" then some none else ((algs.splitOn ",").mapM strOfHex).map some
+    match ty, strOfHex scheme, algs?, bytesOfHex mat with
+    | some ty, some sc, some al, some m =>
+      match KeyId.keyIdWith Sha256.hash Utf8.encode { typ := ty, scheme := sc, hashAlgs := al, material := m } with
+      | some id => String.ofList id
+      | none => "err"
+    | _, _, _, _ => "bad-op"
+  | ["spki_enc", t, mat] =>
+    let ty := if t == "ed25519" then some KeyId.KeyType.ed25519 else if t == "rsa" then some .rsa
+      else if t == "ecdsa" then some .ecdsa else none
+    match ty, bytesOfHex mat with
+    | some ty, some m => hexOfBytes (KeyId.spkiEncode ty m)
+    | _, _ => "bad-op"
+  | ["spki_dec", der] =>
+    match bytesOfHex der with
+    | some d =>
+      match KeyId.spkiDecode d with
+      | some (t, m) => "ok " ++ (match t with | .ed25519 => "ed25519" | .rsa => "rsa" | .ecdsa => "ecdsa") ++ " " ++ hexOfBytes m
+      | none => "reject"
+    | none => "bad-op"
+  | ["sha256", h] =>
+    match bytesOfHex h with
+    | some b => hexOfBytes (Sha256.hash b)
+    | none => "bad-op"
+  | ["hexdec", h] =>
+    match strOfHex h with
+    | some s => match KeyId.hexDecode s with | some b => "ok " ++ hexOfBytes b | none => "reject"
+    | none => "bad-op"
   | "rule_dec" :: toks =>
     match readJV toks with
     | some (v, []) =>
